@@ -175,14 +175,12 @@ theorem stepCtxTimer_ops {s t k d s'} (hs : stepCtxTimer s t k d = some s') : Op
   unfold stepCtxTimer at hs; ops_crush hs
 theorem stepCtxWeak_ops {w s k h s'} (hs : stepCtxWeak w s k h = some s') : OpsMap s s' := by
   unfold stepCtxWeak at hs; ops_crush hs
-theorem stepTimerArm_ops {s t s'} (hs : stepTimerArm s t = some s') : OpsMap s s' := by
+theorem stepTimerArm_ops {w s t due s'} (hs : stepTimerArm w s t due = some s') : OpsMap s s' := by
   unfold stepTimerArm at hs; ops_crush hs
-theorem stepTimerWake_ops {w s t s'} (hs : stepTimerWake w s t = some s') : OpsMap s s' := by
-  unfold stepTimerWake at hs; ops_crush hs
+theorem stepTimerEnd_ops {w s t s'} (hs : stepTimerEnd w s t = some s') : OpsMap s s' := by
+  unfold stepTimerEnd at hs; ops_crush hs
 theorem stepFire_ops {w s t m s'} (hs : stepFire w s t m = some s') : OpsMap s s' := by
   unfold stepFire at hs; ops_crush hs
-theorem stepTimerSent_ops {s t s'} (hs : stepTimerSent s t = some s') : OpsMap s s' := by
-  unfold stepTimerSent at hs; ops_crush hs
 theorem stepTickBegin_ops {s t m s'} (hs : stepTickBegin s t m = some s') : OpsMap s s' := by
   unfold stepTickBegin at hs; ops_crush hs
 theorem stepTime_ops {s t s'} (hs : stepTime s t = some s') : OpsMap s s' := by
@@ -260,8 +258,7 @@ theorem step_ops {w s l s'} (hs : step w s l = some s') (hl : l.isOpEdge = false
   case tDeq => exact stepDeq_ops hs
   case tChanEnd => exact stepChanEnd_ops hs
   case tStreamEnd => exact stepStreamEndTau_ops hs
-  case tTimerArm => exact stepTimerArm_ops hs
-  case tTimerWake => exact stepTimerWake_ops hs
-  case tTimerSent => exact stepTimerSent_ops hs
+  case timerArm => exact stepTimerArm_ops hs
+  case timerEnd => exact stepTimerEnd_ops hs
 
 end Hannibal
